@@ -55,7 +55,7 @@ LONG_SHARE = 1.0 / 500
 def gen_series(rng, m_lo=2, m_hi=60, ties_share=0.4, real_valued=False, long_share=0.0):
     m = int(rng.integers(m_lo, m_hi + 1))
     if long_share and rng.uniform() < long_share:
-        m = int(rng.integers(1001, 2501))       # a day of minute averages: sizes at which block-wise code paths start
+        m = int(rng.integers(1001, 1801))       # a day of minute averages: sizes at which block-wise code paths start
     x, xc = gen.gen_x(rng, m)
     if real_valued:
         ycls = ["gauss", "signchange", "positive", "large", "tiny"][int(rng.integers(0, 5))]
